@@ -280,3 +280,100 @@ def rw_str_index(toks, counts, var, f_range="str_range", f_from="str_from"):
         raise LostAnchor("no range indexing of `%s` found" % var)
     _count(counts, "R6", n)
     return toks
+
+
+CHAR_CLASS_DEF = "($c: expr, [$head:expr]) => ($c == $head); ($c: expr, [$head:expr $(, $cs:expr)+]) => ($c == $head || char_class!($c, [$($cs),*]));"
+
+
+def rw_expand_char_class(toks, counts, macro_file, ctx=None):
+    """R5b: `char_class!(c, [a, b, ...])` -> `(c == a || c == b || ...)`. The two-arm recursive
+    macro_rules! char_class of the real source is compared (token for token) with the definition
+    this expansion implements; any difference is a lost anchor."""
+    from rustlex import find_macro
+    src = ctx["macro_src"](macro_file)
+    m = find_macro(src, "char_class")
+    if m is None:
+        raise LostAnchor("macro_rules! char_class not found")
+    have = " ".join(t.text for t in src[m.body_open + 1:m.body_close] if is_sig(t))
+    want = " ".join(t.text for t in lex(CHAR_CLASS_DEF) if is_sig(t))
+    if have != want:
+        raise LostAnchor("macro_rules! char_class changed: %s" % have[:120])
+    out = []
+    i = 0
+    n = 0
+    while i < len(toks):
+        t = toks[i]
+        if t.kind == "id" and t.text == "char_class":
+            j = next_sig(toks, i + 1)
+            if j < len(toks) and toks[j].text == "!":
+                k = next_sig(toks, j + 1)
+                e = match_close(toks, k)
+                inner = toks[k + 1:e]
+                # split at the first top-level comma
+                d = 0
+                cut = None
+                for x, tk in enumerate(inner):
+                    if tk.kind == "p":
+                        if tk.text in OPEN:
+                            d += 1
+                        elif tk.text in ")]}":
+                            d -= 1
+                        elif tk.text == "," and d == 0:
+                            cut = x; break
+                if cut is None:
+                    raise LostAnchor("char_class!: no class list")
+                subj = text(inner[:cut]).strip()
+                lst = [x for x in inner[cut + 1:] if is_sig(x)]
+                if not lst or lst[0].text != "[" or lst[-1].text != "]":
+                    raise LostAnchor("char_class!: class list is not a bracketed list")
+                members = [x.text for x in lst[1:-1] if x.text != ","]
+                if not members:
+                    raise LostAnchor("char_class!: empty class")
+                new = "(" + " || ".join("%s == %s" % (subj, mem) for mem in members) + ")"
+                out += relex(new)
+                i = e + 1
+                n += 1
+                continue
+        out.append(t); i += 1
+    if n == 0:
+        raise LostAnchor("no char_class! invocation found")
+    _count(counts, "R5", n)
+    return out
+rw_expand_char_class.needs_ctx = True
+
+
+def rw_name_for_iter(toks, counts, name="it"):
+    """R1b: `for PAT in EXPR {` -> `for PAT in NAME: EXPR {` (Verus' syntax for naming the ghost iterator
+    that loop invariants refer to). Nothing executable changes."""
+    n = 0
+    out = []
+    i = 0
+    while i < len(toks):
+        t = toks[i]
+        out.append(t)
+        if t.kind == "id" and t.text == "for":
+            # find the `in` of this loop header at depth 0
+            d = 0
+            k = i + 1
+            while k < len(toks):
+                tk = toks[k]
+                if tk.kind == "p":
+                    if tk.text in OPEN:
+                        d += 1
+                    elif tk.text in ")]}":
+                        d -= 1
+                if d == 0 and tk.kind == "id" and tk.text == "in":
+                    break
+                if d == 0 and tk.kind == "p" and tk.text == "{":
+                    k = None; break
+                k += 1
+            if k is not None and k < len(toks):
+                out += toks[i + 1:k + 1] + relex(" %s:" % name)
+                i = k + 1
+                n += 1
+                continue
+        i += 1
+    if n == 0:
+        raise LostAnchor("no for loop found")
+    _count(counts, "R1", n)
+    return out
